@@ -127,7 +127,59 @@ def dec_store(enc):
   return {k: v for k, v in enc}
 
 
+def _f_mutable(a, layers=[1, 2, 3], /, opts={'x': 1}, *rest, table={'k': [0]}, names={'n'}, plain=5, **kw):   # pylint: disable=dangerous-default-value
+  return (a, layers, opts, rest, table, names, plain, kw)
+
+
+def mutable_defaults_case(_=None):
+  """Reading a parameter that was never assigned (by name, by index) returns its default and
+  changes nothing the configuration reports, whatever the default is (list, dict, set); deleting
+  it afterwards is still the error it was."""
+  import inspect
+  viols = []
+  def bad(what, name):
+    viols.append(dict(kinds=[], hasdef=[], store=[], ops=[], what=what, sig='mutable-defaults', op=name,
+                      mutable_defaults=True))
+  params = inspect.signature(_f_mutable).parameters
+  reads = [('cfg[1]', lambda c: c[1], 'layers'), ('cfg.opts', lambda c: c.opts, 'opts'),
+           ('cfg.table', lambda c: c.table, 'table'), ('cfg.names', lambda c: c.names, 'names'),
+           ('cfg.plain', lambda c: c.plain, 'plain'), ('cfg[:]', lambda c: c[:], None),
+           ("getattr(cfg, 'table')", lambda c: getattr(c, 'table'), 'table')]
+  n = 0
+  for cls in (fdl.Config, fdl.Partial):
+    for label, read, pname in reads:
+      n += 1
+      cfg = cls(_f_mutable, 1)
+      fresh = cls(_f_mutable, 1)
+      before = (O.observe(cfg), dict(cfg.__arguments__), fdl.ordered_arguments(cfg))
+      try:
+        got = read(cfg)
+      except Exception as e:   # pylint: disable=broad-except
+        bad(f'{cls.__name__}: reading {label} raised {type(e).__name__}: {str(e)[:60]}', label)
+        continue
+      if pname is not None and got != params[pname].default:
+        bad(f'{cls.__name__}: {label} returned {got!r}, the default is {params[pname].default!r}', label)
+      after = (O.observe(cfg), dict(cfg.__arguments__), fdl.ordered_arguments(cfg))
+      if after != before:
+        bad(f'{cls.__name__}: reading {label} changed the reported arguments {before[1]} -> {after[1]}', label)
+      if cfg != fresh:
+        bad(f'{cls.__name__}: a configuration that was only read ({label}) no longer equals a fresh one', label)
+      if pname is not None and pname in ('opts', 'table', 'names', 'plain'):
+        try:
+          delattr(cfg, pname)
+          bad(f'{cls.__name__}: del cfg.{pname} of a never-assigned parameter (after reading it) did not raise', label)
+        except AttributeError:
+          pass
+        except Exception as e:   # pylint: disable=broad-except
+          bad(f'{cls.__name__}: del cfg.{pname} raised {type(e).__name__}', label)
+  return n, n, viols, [dict(scenario='reads of never-assigned parameters with mutable defaults', cases=n)]
+
+
 def replay(case):
+  if case.get('mutable_defaults'):
+    r = mutable_defaults_case()
+    m = [v for v in r[2] if v['op'] == case.get('op')]
+    return (m[0]['what'], 0) if m else (None, None)
   sig = gen.SigSpec(tuple(case['kinds']), tuple(case['hasdef']))
   opseq = [O.Op.from_json(j) for j in case['ops']]
   return run_case(sig, dec_store(case['store']), opseq)
